@@ -388,6 +388,22 @@ pub fn gen_c08(rng: &mut Rng, thorough: bool) -> Vec<Tagged> {
         ]);
         out.push((format!("{}-elements", tag), Case::Net(spec2, NetCmd::Forward(t1(rng.distinct(3))))));
     }
+    // (b1) the same transition into a FEEDBACK BLOCK whose first layer is spatial: a non-square flat size is
+    //      refused when the block is added, a square one is read as 1 x r x r by every repetition
+    for n in 1..=(if thorough { 40usize } else { 17 }) {
+        for variant in 0..3 {
+            let first = match variant {
+                0 => Simple::Conv { filters: 1, kernel: (3, 3), stride: (1, 1), padding: (1, 1), dilation: (1, 1), act: Act::Linear, dropout: None },
+                1 => Simple::Maxpool { kernel: (1, 1), stride: (1, 1) },
+                _ => Simple::Deconv { filters: 1, kernel: (1, 1), stride: (1, 1), padding: (0, 0), act: Act::Tanh, dropout: None },
+            };
+            let mut spec = NetSpec::new(Sh::Flat(3).to_shape());
+            spec.layers.push(LayerSpec::One(Simple::Dense { out: n, act: Act::Linear, bias: false, dropout: None }));
+            spec.layers.push(LayerSpec::Block { layers: vec![first], loops: 1 + n % 3, inskips: false, outskips: false, acc: crate::spec::Acc::Add });
+            let r = isqrt(n);
+            out.push((format!("flat{}-to-spatial-block", if r * r == n { "square" } else { "nonsquare" }), Case::Net(spec, NetCmd::Shapes)));
+        }
+    }
     // (b2) the same transition for HUGE flat sizes (r >= 256: beyond 2^16 elements, up to 2^20): perfect squares
     //      are read as 1 x r x r, their neighbours are refused; every spatial kind
     for (k, &n) in [65535usize, 65536, 65537, 66049, 66564, 262144, 263169, 1_000_000, 1_048_576, 1_048_577].iter().enumerate() {
